@@ -14,7 +14,7 @@ import (
 func init() { register("C16", C16) }
 
 type labPal struct {
-	cols []tcell.Color
+	cols    []tcell.Color
 	l, a, b []float64
 }
 
